@@ -312,6 +312,10 @@ class Invariant:
         c = CCtx(interp.path)
         for nm in names:
             fr.locals[nm] = self.havoc_value(c, nm, fr.locals[nm])
+        self.havoc_extra(c, fr.locals)
+
+    def havoc_extra(self, c, env):
+        """Havoc heap / ghost state the loop body may change (default: nothing)."""
 
 
 def fresh_like(c, name, old):
